@@ -486,7 +486,12 @@ namespace hgraph
             if (is_target_position())
             {
                 const auto *link = data_.link_storage();
-                if (link != nullptr && link->tracking.last_modified_time > data.last_modified_time())
+                // Only in the cycle of the rebind, and only for the position
+                // that owns the link: a child reached through a root link
+                // shares the root's tracking, and a later cycle must not read
+                // an old value as this tick's delta. modified() applies both.
+                if (link != nullptr && link->tracking.last_modified_time > data.last_modified_time() &&
+                    modified())
                 {
                     return data.value();
                 }
@@ -527,7 +532,8 @@ namespace hgraph
         if (is_target_position())
         {
             const auto *link = data_.link_storage();
-            if (link != nullptr && link->tracking.last_modified_time > data.last_modified_time())
+            if (link != nullptr && link->tracking.last_modified_time > data.last_modified_time() &&
+                modified())
             {
                 return data.value_to_python();
             }
